@@ -91,6 +91,48 @@ def rule_strictly_newer(ctx):
     adoption_table(ctx, R, "process_timeout_qc", "high_timeout_qc", "TimeoutQC")
 
 
+def rule_embedded_commit_qc(ctx):
+    R = "C05.3"
+    ctx.rule(R, "process_timeout_qc hands the certificate's high commit QC to process_commit_qc whenever it has one - also when the timeout certificate itself is not newer than the held one (two certificates of one view can carry different commit certificates; spec/informal-spec/replica.rs process_timeout_qc)")
+    f = ctx.body(SM + "::process_timeout_qc")
+    T = ctx.T(f)
+    pn = common.pnames(f, "TimeoutQC")
+
+    def is_hq(t):
+        return t[0] == "call" and t[1].endswith("TimeoutQC::high_qc")
+
+    def is_cur(t):
+        return self_field(t, "high_timeout_qc")
+
+    def m(a, b):
+        ca, cb = view_number_chain(a), view_number_chain(b)
+        if not ca or not cb:
+            return 0
+        a_cur = any(is_cur(x) for x in subterms(a))
+        b_cur = any(is_cur(x) for x in subterms(b))
+        if a_cur and not b_cur and common.is_p(cb[0], pn):
+            return 1
+        if b_cur and not a_cur and common.is_p(ca[0], pn):
+            return -1
+        return 0
+    calls = [c["bb"] for c in T.calls() if (c["rq"] or c["q"]) == SM + "::process_commit_qc"]
+    ctx.floor(R, "process_commit_qc call sites in process_timeout_qc", len(calls), 1)
+    W = Walker(ctx, f, [Atom("qc.high_qc()", "opt", is_hq, ["Some"]), Atom("held", "opt", is_cur, ["None", "Some"], kills=["high_timeout_qc"]),
+                        Atom("cmp(held.view,qc.view)", "cmp", m, ["<", "=", ">"], kills=["high_timeout_qc"])])
+    cfg = ctx.cfg(f)
+    rets = set(Q.return_blocks_maybe_ok(ctx, f) and [b for b, _ in Q.return_blocks_maybe_ok(ctx, f)])
+    bad = []
+    import itertools
+    for held, c in itertools.product(["None", "Some"], ["<", "=", ">"]):
+        val = {"qc.high_qc()": "Some", "held": held, "cmp(held.view,qc.view)": c}
+        r = W.reachable(val, 0, frozenset(calls))
+        if r & rets:
+            bad.append((held, c))
+    ctx.ob(R, "embedded commit QC always processed", not bad and bool(calls),
+           "every successful path of process_timeout_qc with qc.high_qc() = Some passes process_commit_qc, whatever the held timeout certificate" if not bad and calls else
+           "process_timeout_qc can return Ok without processing the certificate's high commit QC when (held timeout QC, held.view vs qc.view) is %s: a newer commit certificate carried by a same-view (or older) timeout certificate is dropped" % bad, f.loc())
+
+
 def rule_stale_new_view(ctx):
     R = "C05.5"
     ctx.rule(R, "stale new-view (guard table): processing is unreachable when msg.view < self.view; a future view is started exactly when msg.view > self.view")
@@ -233,5 +275,5 @@ def rule_justification_choice(ctx):
                "with commit=%s timeout=%s order %s get_justification reaches %s; specified %s (spec/informal-spec/replica.rs create_justification)" % (c, t, o, sorted(reach), sorted(exp)), g.loc())
 
 
-RULES = [("C05.1", rule_who_writes), ("C05.4", rule_justification_choice), ("C05.2", rule_strictly_newer), ("C05.5", rule_stale_new_view), ("C05.6", rule_stale_votes),
+RULES = [("C05.1", rule_who_writes), ("C05.4", rule_justification_choice), ("C05.2", rule_strictly_newer), ("C05.3", rule_embedded_commit_qc), ("C05.5", rule_stale_new_view), ("C05.6", rule_stale_votes),
          ("C05.7", rule_self_justifying), ("C05.8", rule_wrong_leader)]
